@@ -54,6 +54,23 @@ static rc::Gen<Case> genCase() {
     return rc::gen::exec([]() {
         Case k;
         k.path = *irange(0, 2);
+        if (*irange(0, 119) == 0) {
+            // "any number of cells, any mesh sizes": a tissue of more than 2^16 faces in one file (13-14 cells of 5120 faces, or one cell of
+            // 81920), beyond every 16-bit counter and every buffer sized for the small tissues above
+            const int big = *irange(0, 2);
+            const int nb = big == 0 ? 1 : big == 1 ? 13 : 14;
+            TriMesh base = mg::icosphere(big == 0 ? 6 : 5);
+            for (int i = 0; i < nb; i++) {
+                CellSpec c;
+                c.cls = *irange(0, 4);
+                c.type_id = (short)*rc::gen::element(0, 1, 2, 3, 4);
+                c.mesh = base;
+                const double sx = *uniform(0.8, 1.3), sy = *uniform(0.8, 1.3);
+                for (size_t j = 0; j < c.mesh.nn(); j++) c.mesh.xyz[3 * j] = c.mesh.xyz[3 * j] * sx + 3.0 * i, c.mesh.xyz[3 * j + 1] *= sy;
+                k.cells.push_back(c);
+            }
+            return k;
+        }
         int nc = *irange(1, 8);
         for (int i = 0; i < nc; i++) {
             CellSpec c;
@@ -103,6 +120,11 @@ static double written_value(double x) {  // what "%.4e" keeps of x
 
 static std::string run(const Case& k, vf::Ctx& ctx) {
     ct::CellScope scope;
+    {
+        size_t nf = 0;
+        for (auto& c : k.cells) nf += c.mesh.nt();
+        if (nf > 65536) ctx.count("tissue_of_more_than_65536_faces");
+    }
     std::vector<cell_ptr> cells;
     bool any_compaction = false;
     std::set<int> classes;
@@ -112,7 +134,7 @@ static std::string run(const Case& k, vf::Ctx& ctx) {
         // bindings does): nothing the writer remembers about an earlier tissue may leak into this one
         static std::vector<std::shared_ptr<cell_type_parameters>> type_pool;
         if (type_pool.empty())
-            for (int q = 0; q < 8; q++) type_pool.push_back(ct::default_cell_type(2));
+            for (int q = 0; q < 16; q++) type_pool.push_back(ct::default_cell_type(2));
         auto type = type_pool[i % type_pool.size()];
         type->global_type_id_ = cs.type_id;
         cell_ptr c;
